@@ -1,6 +1,7 @@
 // Stream c03: mesh operations do what they say and nothing else.
-//   c03.op.<op> params meshes          full result (indices, materials, every attribute value, bit-exact) vs the Lean model
-//   c03.holds.<op>_spec params in out  the contract predicate of the C03 theorems evaluated on the implementation's output
+//
+//	c03.op.<op> params meshes          full result (indices, materials, every attribute value, bit-exact) vs the Lean model
+//	c03.holds.<op>_spec params in out  the contract predicate of the C03 theorems evaluated on the implementation's output
 package main
 
 import (
@@ -25,35 +26,6 @@ func isIdentity(m modeling.Mesh) bool {
 		}
 	}
 	return true
-}
-
-// opsFor biases the choice towards operations the mesh's topology admits (rejections still occur)
-func (c *Ctx) opsFor(m modeling.Mesh, all []string) string {
-	for tries := 0; tries < 4; tries++ {
-		name := all[c.Rng.Intn(len(all))]
-		ok := true
-		switch name {
-		case "flip", "weld", "removenull", "split", "smoothnormals", "flatnormals":
-			ok = m.Topology() == modeling.TriangleTopology
-		case "laplacian":
-			// line and line-loop neighbour tables are not modelled (and an empty line loop makes
-			// VertexNeighborTable index m.indices[0]); see notes/C03.md
-			ok = m.Topology() == modeling.TriangleTopology || m.Topology() == modeling.LineStripTopology
-		case "crop":
-			ok = m.Topology() == modeling.PointTopology
-		case "filter":
-			ok = m.Topology() == modeling.PointTopology
-		case "topointcloud":
-			ok = m.Topology() != modeling.PointTopology || c.Rng.Intn(4) == 0
-		}
-		if ok || c.Rng.Intn(10) == 0 {
-			if name == "laplacian" && (m.Topology() == modeling.LineTopology || m.Topology() == modeling.LineLoopTopology) {
-				continue
-			}
-			return name
-		}
-	}
-	return "unweld"
 }
 
 // emitOp writes the correspondence line and the oracle line(s) of one applied operation
@@ -95,6 +67,12 @@ func runC03(c *Ctx) {
 	log.SetOutput(io.Discard)
 	all := append(append([]string{}, layoutOps...), transformOps...)
 	for s := 0; s < c.N; s++ {
+		c.guardSeq("c03.holds.harness_ok", func() { c.seq03(all) })
+	}
+}
+
+func (c *Ctx) seq03(all []string) {
+	{
 		m := c.startMesh()
 		c.noteMesh("start", m)
 		steps := 1 + c.Rng.Intn(4)
